@@ -243,12 +243,12 @@ theorem scanIW_delivers_sigTokens (s : PState) (hn : s.n = 0) (hp : s.params = [
     ∃ lx s', scanIW.run s = .ok (lx, s') ∧ s'.n = 0 ∧ s'.params = [] ∧
       sigTokens s.r = if lx.tok = .EOF then [lx.sig] else lx.sig :: sigTokens s'.r := by
   unfold scanIW
-  rw [P.run_bind, P.run_get]
+  rw [P.runBind, P.run_get]
   exact scanIWLoop_sigTokens _ s hn hp (by omega)
 
 /-! ## `ParseQuery`: statement separation
 
-`parseQuery ps` (Lemmas/Query.lean) mirrors the loop of `Parser.ParseQuery` over the significant
+`absParseQuery ps` (Lemmas/Query.lean) mirrors the loop of `Parser.ParseQuery` over the significant
 tokens: `;` sets `semi`; EOF returns; any other token is an error unless `semi`, else the
 statement parser `ps` is run from that token on and `semi` is cleared. `ps` is arbitrary. -/
 
@@ -259,8 +259,8 @@ the statements `s₁ … sₙ`, in order: empty statements and a trailing semico
 following `;` or EOF. -/
 theorem parseQuery_split {ε σ : Type} (ps : List Tok → Except ε (σ × List Tok)) (lead : Nat)
     (segs : List (List Tok × Nat × σ)) (hok : ∀ x ∈ segs, StmtOK ps x) (hsep : WellSep segs) :
-    parseQuery ps (semis lead ++ render segs) = .ok (segs.map (·.2.2)) := by
-  unfold parseQuery
+    absParseQuery ps (semis lead ++ render segs) = .ok (segs.map (·.2.2)) := by
+  unfold absParseQuery
   have e : (semis lead ++ render segs).length + 1 = ((render segs).length + 1) + lead := by
     simp [semis]; omega
   rw [e, parseQueryLoop_semis]
@@ -271,7 +271,7 @@ theorem parseQuery_split {ε σ : Type} (ps : List Tok → Except ε (σ × List
 /-- Each statement parsed alone gives the one-element list with that statement: the result for
 the whole query is the concatenation of the results of its statements parsed alone. -/
 theorem parseQuery_single {ε σ : Type} (ps : List Tok → Except ε (σ × List Tok))
-    (x : List Tok × Nat × σ) (hok : StmtOK ps x) : parseQuery ps (x.1 ++ [eofTok]) = .ok [x.2.2] := by
+    (x : List Tok × Nat × σ) (hok : StmtOK ps x) : absParseQuery ps (x.1 ++ [eofTok]) = .ok [x.2.2] := by
   have hok' : StmtOK ps (x.1, 0, x.2.2) := hok
   have h := parseQuery_split ps 0 [(x.1, 0, x.2.2)] (by intro y hy; simp at hy; subst hy; exact hok') trivial
   simpa [semis, render] using h
@@ -282,11 +282,11 @@ theorem parseQuery_missing_semi {ε σ : Type} (ps : List Tok → Except ε (σ 
     (s : List Tok) (st : σ) (t : Tok) (rest : List Tok) (acc : List σ)
     (hs : ∃ t0 s', s = t0 :: s' ∧ t0.1 ≠ .EOF ∧ t0.1 ≠ .SEMICOLON)
     (hps : ps (s ++ t :: rest) = .ok (st, t :: rest)) (ht : t.1 ≠ .EOF ∧ t.1 ≠ .SEMICOLON) :
-    parseQueryLoop ps (fuel + 2) true (s ++ t :: rest) acc = .error (.missingSemi t) := by
+    absParseQueryLoop ps (fuel + 2) true (s ++ t :: rest) acc = .error (.missingSemi t) := by
   obtain ⟨t0, s', hs0, h1, h2⟩ := hs
   subst hs0
   have hps' : ps (t0 :: (s' ++ t :: rest)) = .ok (st, t :: rest) := by simpa using hps
-  simp only [List.cons_append, parseQueryLoop, h1, h2, if_false, Bool.not_true, Bool.false_eq_true,
+  simp only [List.cons_append, absParseQueryLoop, h1, h2, if_false, Bool.not_true, Bool.false_eq_true,
     hps', ht.1, ht.2, Bool.not_false, if_true]
 
 /-! ## The regex look-ahead: where a comment is *not* whitespace (known finding)
